@@ -170,7 +170,9 @@ def _sink_summary(c, sinks):
 
 NASTIES = [NASTY, NASTY2, "a > b", "]]>", "R&amp;D", "&#65;BC", "&#x41;", "&lt;tag&gt;", "&amp;amp;", "&quot;", "&apos;", "a&b;c", "&", "&&", "&;", "&#;",
            "<![CDATA[x]]>", "<!--c-->", "<?pi x?>", "%s %d %(x)s", "{0} {name} {", "}{", "\\n", "'", '"', "a'b\"c", 'x="1" y=\'2\'', "<c:v>", "&#0;",
-           "\u00e9&\u00fc<", "\U0001F600&", "a<b>c</b>", "1 < 2 && 3 > 2"]
+           "\u00e9&\u00fc<", "\U0001F600&", "a<b>c</b>", "1 < 2 && 3 > 2",
+           # characters some line splitters treat as breaks: they are data like any other (only \n and \v separate in text setters)
+           "line\u2028sep <a>", "para\u2029sep &", "next\u0085line"]
 
 
 def _native_probe(which, nasties=None):
